@@ -108,6 +108,24 @@ CHECKS["C18"] = dict(
   text="connect(): generated rdwr/llcp/card options with callbacks returning true/false/None/other types run against a scripted device (tag that stays n exchanges, remote reader, host faults) and a second nfcpy stack as peer; invariants: on-startup before any discovery, discover -> connect -> release order, on-release exactly once per true on-connect with the same object, return value None/False/object/released value as documented, nothing new after terminate() is true, no exception. sense(): target lists mixing supported/unsupported/invalid targets, first-in-order result, field off after failure, no stale target in exchange(), direction follows the last target.",
   note=TRUST + "Environment simulated (vlib/simdev.py + scripted extensions). Known findings C18-systemexit-from-connect and C18-no-on-release-after-device-error excluded by class; behaviour after an on-release that returns false is undocumented and only labelled.")
 
+CHECKS["C04"] = dict(
+  category="fault_enumeration",
+  technique="bounded-exhaustive fault-script enumeration + property-based testing: a real nfc.dep.Initiator/Target pair on a simulated RF medium under a virtual scheduler; delivered-exactly-once / transparency / frame-size oracles on an independently parsed wire log",
+  text="For seeded and hand-written configurations (bit rate, LR both ways, RWT, DID, NAD, payload sizes around multiples of the MIU, conversations beyond the PNI wrap) every single lose/corrupt fault over the first 24 frame slots (quick) and every pair (thorough) is enumerated, plus generated sparse and dense scripts. Delivered payload sequences must be prefixes of the sent ones, every exchange returns or raises CommunicationError, at most one fault per protocol step must be absorbed transparently, and no frame exceeds the receiver's LR.",
+  note=TRUST + "vlib/deppair.py (independent DEP frame parser, step splitter), vlib/simdev.py. Active communication mode, DID=0 and target-side NAD are outside the domain. Built by a sub-agent, reviewed and re-run by the coordinator.")
+
+CHECKS["C07"] = dict(
+  category="exploration",
+  technique="grammar-aware fuzzing with Hypothesis (mutated valid frames, boundary constructions) + exhaustive short strings, at every protocol position where the peer speaks; crash/hang oracle per entry point",
+  text="pdu.decode; a live Initiator fed scripted+mutated ATR/PSL/DEP/DSL/RLS responses; a live Target fed fuzzed atr_req/dep_req and requests; general bytes into llc.activate(); a raw NFC-DEP peer sending arbitrary LLC PDUs into a running connect(llcp=...) with sockets in every state; rogue SNEP/handover clients and servers over real data link connections; fuzzed commands into Type3TagEmulation and through connect(card=...). Only documented exception types may escape, no thread may die or stay blocked, connect() must return.",
+  note=TRUST + "Peer simulated at the driver interface (vlib/simdev.py), threads/time virtual (vlib/vsched.py). A silent peer while the link lives is not judged. LLCP secure data transfer unreachable in the sandbox.")
+
+CHECKS["C19"] = dict(
+  category="exploration",
+  technique="exhaustive option-grid enumeration + pairwise-covering arrays + property-based testing over two complete stacks on a simulated RF medium; negotiated-parameter and wire-limit oracles",
+  text="role x brs x lri x lrt x rwt x MIU grid (144 points quick, all 23,040 thorough), seeded pairwise-covering arrays over all parameters incl. LTO, aggregation, LSC, DID, and generated configurations: after both connect(llcp=...) calls handed out their controllers send-miu == peer recv-miu, recv-lto == peer LTO, WKS/LSC are the peer's, DEP miu follows the peer's LR (minus DID/NAD), RWT formula, selected bit rate; then UI datagrams at MIU-1/MIU/MIU+1 and a SNEP put are run and every frame on the air is checked against LR and every PDU against the receiver's link MIU.",
+  note=TRUST + "vlib/deppair.py independent frame parser, vlib/ref_llcp.py. Discovery always starts at 106A. Built by a sub-agent, reviewed and re-run by the coordinator.")
+
 PENDING_REASON = "not claimed yet: its generated-input check (DESIGN.md section 3) is still under construction in this session; nothing is asserted about it"
 
 def main():
